@@ -39,6 +39,7 @@ type fileLog struct {
 	rotations int
 	restarts  int
 	trace     []string
+	extra     []func(*autofile.Group) // further group options (total size limit)
 }
 
 // scratchDir creates a scratch directory, on a memory file system when there is one: the
@@ -97,7 +98,7 @@ func (fl *fileLog) options() []func(*autofile.Group) {
 	} else {
 		opts = append(opts, autofile.GroupCheckDuration(24*time.Hour)) // the harness places the checks itself
 	}
-	return opts
+	return append(opts, fl.extra...)
 }
 
 // start opens and starts the WAL. OnStart writes an end-height-0 marker when the head file is empty.
